@@ -648,8 +648,8 @@ UNDECIDABLE_REFACTORS = {
     # wave 10 (behaviour-preserving restructurings in five harder styles:
     # object-oriented, data-flow, table-driven, signature work, cross-module).
     # The checks decline on these; first reason as reported by the check:
-    "R01_19": ("C01", "C02", "C03", "C04", "C05", "C10", "C11", "C12", "C15",),
-    #     C01.5 at evo/common_ape_rpe.py:137: motion filter: thresholds compared inside the filter not found / not evalu
+    "R01_19": ("C01", "C02", "C03", "C04", "C05", "C11", "C15",),
+    #     C01.7 (shared clause of C05): c05: [snd_longer=True] expected two reduce_to_ids calls
     "R01_20": ("C01", "C02", "C05", "C10", "C11", "C12",),
     #     analysis stopped: APE[full_transformation]: self.error is never assigned
     "R01_21": ("C01", "C02",),
@@ -663,7 +663,7 @@ UNDECIDABLE_REFACTORS = {
     "R03_18": ("C03", "C04", "C08",),
     #     analysis stopped: SVD call not found (unknown idiom)
     "R03_19": ("C03", "C04",),
-    #     C03.5 at evo/core/geometry.py:83 (evo.core.geometry.umeyama_alignment): covariance construction not recognised
+    #     C03.6 at evo/core/geometry.py:83 (evo.core.geometry.umeyama_alignment): [with_scale=True] equivariance typing:
     "R03_21": ("C01", "C02", "C03", "C04", "C08",),
     #     C01.9 (shared clause of C04): c04: test of n against its 'all poses' marker not found in align (unknown idiom)
     "R04_18": ("C01", "C02", "C04", "C05", "C08", "C11", "C12", "C15", "C20",),
@@ -692,8 +692,8 @@ UNDECIDABLE_REFACTORS = {
     #     C17.2 at evo/tools/file_interface.py:237: form not recognised, no evidence of a deviation: numpy.savetxt in ev
     "R08_18": ("C01", "C02", "C04", "C05", "C08", "C11", "C12", "C15", "C20",),
     #     C01.6 (shared clause of C08): c08: anchor function vanished: evo.core.trajectory.PosePath3D.num_poses
-    "R08_19": ("C01", "C02", "C05", "C08", "C10", "C11", "C12", "C15",),
-    #     C01.5 at evo/common_ape_rpe.py:137: motion filter: thresholds compared inside the filter not found / not evalu
+    "R08_19": ("C08", "C11", "C15",),
+    #     C08.5 at evo/core/trajectory.py:173 (evo.core.trajectory.PosePath3D.transform): transform[propagate]: relative
     "R08_20": ("C08", "C15",),
     #     C08.5 at evo/core/trajectory.py:217 (evo.core.trajectory.PosePath3D.transform): transform[propagate]: the stor
     "R08_21": ("C01", "C02", "C04", "C05", "C08", "C11", "C12", "C15", "C20",),
@@ -712,10 +712,10 @@ UNDECIDABLE_REFACTORS = {
     #     C10.6 at evo/core/metrics.py:485 (evo.core.metrics.id_pairs_from_delta): form not recognised, no evidence of a
     "R10_21": ("C10",),
     #     C10.8 at evo/core/filters.py:181: angle/all-pairs search: start / candidate rotation stacks not recognised
-    "R11_19": ("C01", "C02", "C05", "C10", "C11", "C12", "C15",),
-    #     C01.5 at evo/common_ape_rpe.py:137: motion filter: thresholds compared inside the filter not found / not evalu
+    "R11_19": ("C11", "C15",),
+    #     C11.2 at evo/core/filters.py:196 (evo.core.filters.filter_by_motion): kept-id list is not built in a loop: lis
     "R11_20": ("C01", "C02", "C04", "C05", "C08", "C11", "C12", "C15", "C20",),
-    #     CRASH         ^^^^^^^^^^^^^   File "/verif/sa/core.py", line 187, in import_rules     mod.check(sub)   File "/
+    #     C01.6 (shared clause of C08): c08: anchor function vanished: evo.core.trajectory.PoseTrajectory3D.reduce_to_id
     "R11_21": ("C02", "C05", "C08", "C11", "C12", "C15",),
     #     C08.3 at evo/core/trajectory.py:338 (evo.core.trajectory.PosePath3D.downsample): form not recognised, no evide
     "R12_18": ("C12",),
@@ -735,7 +735,7 @@ UNDECIDABLE_REFACTORS = {
     "R14_18": ("C14",),
     #     C14.1 at evo/core/trajectory.py:254 (evo.core.trajectory.PosePath3D.project): form not recognised, no evidence
     "R14_19": ("C14",),
-    #     analysis stopped: vendored euler_from_matrix: the middle angle is no longer +-atan2(., sqrt(.)) on every path;
+    #     C14.2 at evo/core/transformations.py: vendored `euler_from_matrix` was edited: the summary this rule relies on
     "R14_20": ("C14",),
     #     C14.1 at evo/core/trajectory.py:230 (evo.core.trajectory.PosePath3D.project): Plane.XY: the axis of the rebuil
     "R14_21": ("C14",),
@@ -744,8 +744,8 @@ UNDECIDABLE_REFACTORS = {
     #     _pipeline: evo.main_ape.ape: pipeline steps not found (unknown idiom)
     "R15_18": ("C11", "C15",),
     #     C11.8 (shared clause of C15): c15: step `merge` not found in evo.main_traj.run (anchor vanished / unknown idio
-    "R15_19": ("C01", "C02", "C05", "C08", "C10", "C11", "C12", "C15",),
-    #     C01.5 at evo/common_ape_rpe.py:137: motion filter: thresholds compared inside the filter not found / not evalu
+    "R15_19": ("C05", "C08", "C11", "C15",),
+    #     C05.3 at evo/core/sync.py:56 (evo.core.sync.matching_time_indices): form not recognised, no evidence of a devi
     "R15_20": ("C01", "C02", "C06", "C07",),
     #     C07.1 at evo/tools/file_interface.py:521 (evo.tools.file_interface.load_transform): form not recognised, no ev
     "R15_21": ("C15", "C17",),
@@ -753,7 +753,7 @@ UNDECIDABLE_REFACTORS = {
     "R15_22": ("C01", "C02", "C05", "C10", "C12",),
     #     _pipeline: evo.main_ape.ape: pipeline steps not found (unknown idiom)
     "R16_19": ("C01", "C02", "C05", "C13", "C15",),
-    #     C01.7 (shared clause of C05): c05: append of matching indices not found (unknown idiom)
+    #     C01.7 (shared clause of C05): c05: [snd_longer=True] expected two reduce_to_ids calls
     "R16_20": ("C01", "C02", "C12",),
     #     C01.3 at evo/core/metrics.py:384 (evo.core.metrics.APE.process_data): APE[translation_part]: reducer idiom not
     "R16_21": ("C06", "C13", "C17",),
@@ -767,7 +767,7 @@ UNDECIDABLE_REFACTORS = {
     "R18_18": ("C18", "C19",),
     #     C18.3 at evo/tools/settings.py:159 (evo.tools.settings.reset): form not recognised, no evidence of a deviation
     "R18_19": ("C18",),
-    #     C18.1 at evo/main_config.py:172: form not recognised, no evidence of a deviation: set: config[elem<1>(?<genera
+    #     C18.1 at evo/main_config.py:172: form not recognised, no evidence of a deviation: set: config[elem<2>(loopout<
     "R18_20": ("C18",),
     #     C18.2 at evo/main_config.py:172 (evo.main_config.finalize_values): form not recognised, no evidence of a devia
     "R19_19": ("C18",),
